@@ -251,6 +251,50 @@ def run(ctx, out):
         if 'y' not in before or rep.y != 5 or cp.y != 5 or 'y' not in inst.dict(set_only=True) or not (rep == inst):
             out.violation('C16:assignment-not-recorded', f'{label}: after inst.y = 5 on {inst!r}: set-record {sorted(before)}, replace() gives {rep!r}, copy gives {cp!r}, '
                           f'dict(set_only=True) = {inst.dict(set_only=True)!r}', {'case': label})
+    # frozen is decided per class: a frozen class derived from a mutable one rejects assignment, and the reverse
+    class MutBase(pane.PaneBase, frozen=False):
+        x: int = 0
+
+    class FrozenChild(MutBase, frozen=True):
+        y: int = 0
+
+    class FrozenGrandChild(FrozenChild):
+        z: int = 0
+
+    class FrozenBase(pane.PaneBase):
+        x: int = 0
+
+    class MutChild(FrozenBase, frozen=False):
+        y: int = 0
+
+    class MutAgain(FrozenChild, frozen=False):
+        w: int = 0
+    for label, cls, frozen in (('frozen=True child of a frozen=False class', FrozenChild, True), ('its subclass (option inherited)', FrozenGrandChild, True),
+                               ('frozen=False child of a frozen class', MutChild, False), ('frozen=False again below a frozen=True class', MutAgain, False),
+                               ('the mutable base itself', MutBase, False), ('the frozen base itself', FrozenBase, True)):
+        n += 1
+        inst = cls()
+        h0 = None
+        try:
+            h0 = hash(inst)
+        except TypeError:
+            pass
+        try:
+            inst.x = 5
+            accepted = True
+        except dataclasses.FrozenInstanceError:
+            accepted = False
+        except Exception as e:
+            out.violation(f'C16:frozen-inheritance:{type(e).__name__}', f'{label}: assignment raised {type(e).__name__}: {e}', {'case': label})
+            continue
+        if accepted == frozen:
+            out.violation('C16:frozen-inheritance', f'{label}: inst.x = 5 was {"accepted" if accepted else "rejected"} (now {inst!r}, set-record {sorted(inst.__pane_set__)}'
+                          f'{", hash changed" if h0 is not None and accepted and hash(inst) != h0 else ""}); the class is {"frozen" if frozen else "not frozen"}', {'case': label})
+        try:
+            del inst.x
+            out.violation('C16:frozen-inheritance:delete', f'{label}: del inst.x was accepted', {'case': label})
+        except AttributeError:
+            pass
     # fields that are not constructor arguments (init=False): copy / deepcopy / replace after one has been assigned,
     # and when a hook derives one from the others
     class NI(pane.PaneBase, frozen=False):
